@@ -5,4 +5,4 @@ h=$(git -C /repo log --format=%h --grep="$pat" | head -1)
 [ -n "$h" ] || { echo "no commit matches $pat"; exit 2; }
 git -C /repo show $h | git -C /repo apply -R || exit 2
 for p in "$@"; do printf "%s on reversed %s: " $p "$h"; /verif/check $p | grep -c VIOLATION | tr '\n' ' '; echo; done
-git -C /repo checkout -- .
+git -C /repo checkout -- . ; git -C /repo clean -fdq -- src
